@@ -115,7 +115,18 @@ Definition overlaps (f1 l1 f2 l2 : bytes) : bool :=
   if isnil f1 || isnil l1 || isnil f2 || isnil l2 then false
   else negb (blt l1 f2 || blt l2 f1).
 
-Definition dfile_le (a b : dfile) : bool := sst_le (d_sst a) (d_sst b).
+(* the order of the pinned code: file name order = (level, number, timestamp) *)
+Definition name_le (a b : sst) : bool :=
+  if s_level a <? s_level b then true else if s_level b <? s_level a then false else
+  if s_num a <? s_num b then true else if s_num b <? s_num a then false else
+  s_ts a <=? s_ts b.
+Fixpoint name_insert (x : sst) (l : list sst) : list sst :=
+  match l with
+  | [] => [x]
+  | y :: r => if name_le x y then x :: l else y :: name_insert x r
+  end.
+Definition name_sort (l : list sst) : list sst := fold_right name_insert [] l.
+Definition dfile_le (a b : dfile) : bool := name_le (d_sst a) (d_sst b).
 Fixpoint dinsert (x : dfile) (l : list dfile) : list dfile :=
   match l with
   | [] => [x]
@@ -339,13 +350,13 @@ Definition creopen (s : cst) (retire : bool) : cst :=
   let e0 := eng s in
   let e1 := if retire then upd_wal e0 (wal_next e0) (skipn (retirable s) (wal_files e0)) else e0 in
   let e2 := reopen (set_ssts e1 (map d_sst (disk s))) in
-  mkC e2 (disk s) [] (cc s) (if retire then 0%nat else retirable s).
+  mkC (set_ssts e2 (name_sort (map d_sst (disk s)))) (disk s) [] (cc s) (if retire then 0%nat else retirable s).
 
 Definition cget (s : cst) (k : bytes) : option bytes := get (eng s) k.
 
 (* what a database opened on the SST directory alone reads (no log, empty memtables) *)
 Definition ssts_read (tables : list sst) (k : bytes) : option bytes :=
-  match ssts_get k (rev (sst_sort tables)) with
+  match ssts_get k (rev (name_sort tables)) with
   | Some (Some v) => Some v
   | _ => None
   end.
